@@ -167,6 +167,22 @@ def run(tier):
                     {"op": "parse_record_nocopy", "ct": 22, "ver": 771, "data": [{"lit": [14, 0, 0, 0], "fill": [0, 0, 0]}]},
                     {"op": "reset", "ct": 0, "ver": 0, "data": [{"lit": [], "fill": [0, 0, 0]}]},
                     {"op": "parse_record", "ct": 22, "ver": 771, "data": [{"lit": [14, 0, 0, 0], "fill": [0, 0, 0]}]}]})
+    # the same kind of message - complete by its declared length, cut short inside - arriving in SEVERAL records, with bytes of the next message
+    # behind it: the buffer ends up longer than the message while the one-shot parser still answers Incomplete
+    small_inner = [[1, 0, 0, 38, 3, 3] + [7] * 32 + [32, 9, 9, 9],                       # ClientHello: a 32-byte session id announced with 3 bytes left
+                   [11, 0, 0, 6, 0, 0, 9, 0, 0, 1],                                       # Certificate: list of 9 bytes in a body of 6
+                   [2, 0, 0, 40, 3, 3] + [7] * 32 + [0, 0, 47, 0, 0, 9, 1],               # ServerHello: extensions of 9 bytes, 1 present
+                   [22, 0, 0, 5, 1, 0, 0, 9, 1], [4, 0, 0, 6, 0, 0, 1, 44, 0, 9]]         # CertificateStatus / NewSessionTicket
+    for mi, msg in enumerate(small_inner):
+        for tail in ([], [14, 0, 0, 0, 1], [9] * 40):
+            whole = msg + tail
+            for k in sorted({1, 3, 4, 10, len(msg) - 1, len(msg)} & set(range(1, len(whole)))):
+                big.append({"id": "innersplit:%d:%d:%d" % (mi, len(tail), k), "ops": [
+                    {"op": "parse_record", "ct": 22, "ver": 771, "data": [{"lit": whole[:k], "fill": [0, 0, 0]}]},
+                    {"op": "parse_record", "ct": 22, "ver": 771, "data": [{"lit": whole[k:], "fill": [0, 0, 0]}]},
+                    {"op": "parse_record", "ct": 22, "ver": 771, "data": [{"lit": [1, 2, 3], "fill": [0, 0, 0]}]},
+                    {"op": "parse_record", "ct": 23, "ver": 771, "data": [{"lit": [1], "fill": [0, 0, 0]}]},
+                    {"op": "reset", "ct": 0, "ver": 0, "data": [{"lit": [], "fill": [0, 0, 0]}]}]})
     bin_, bout = os.path.join(d, "defrag_big.in.ndjson"), os.path.join(d, "defrag_big.out.ndjson")
     vlib.write_ndjson(bin_, [{"id": r["id"], "prefix": [], "tests": r["ops"], "seq": True} for r in big])
     vlib.run_harness(binary, ["defrag", bin_, bout])
@@ -204,6 +220,19 @@ def run(tier):
             rep.violation("defrag-stream:%d" % n, {"stream_event": n, "event": e}, "returns Ok/Err within the heap bound", e,
                           "real-size defragmenter stream, event %d (%s of %d bytes, buffer %d): %s" % (n, e["op"], e["len"], e["buflen"], e["k"] if e["k"] in ("panic", "timeout") else "heap %d" % e["alloc"]), "path")
             break
+    # what the parser HOLDS after very many records of one defragmentation (per-call windows cannot see bookkeeping that grows by a few bytes per record)
+    hp = os.path.join(d, "defrag_hold.ndjson")
+    vlib.run_harness(binary, ["defrag-hold", "4000000" if thorough else "400000", hp])
+    for h in vlib.read_ndjson(hp):
+        rep.count(h["records"])
+        why = None
+        if h["panicked"]:
+            why = "a call panicked"
+        elif h["held"] > 2 * h["buflen"] + 4096:
+            why = "after %d continuation records the parser holds %d bytes of heap for a buffer of %d bytes" % (h["records"], h["held"], h["buflen"])
+        if why:
+            rep.violation("defrag-hold:%s" % h["run"], {"run": h["run"], "records": h["records"]}, "held <= 2 x buffer + 4 KiB", h, why, "path")
+        rep.nontrivial(("defrag-hold", h["run"]))
     rep.assumptions += ["Heap bound per call: A = 1024 bytes per input byte + B = 64 KiB (defragmenter: + twice the buffer length after the call, i.e. amortised Vec growth, the buffer itself staying below 10 MiB); measured worst case ~205 B/byte",
                         "The harness is built with overflow-checks and debug-assertions on; a hang is a call exceeding 5 s"]
     return rep.finish("exploration",
